@@ -212,6 +212,18 @@ func (r *Recorder) IsKnown(key string) bool {
 	return true
 }
 
+// Excluding reports whether key is a listed known finding whose input class a generator
+// excludes by construction; it counts the exclusion and prints nothing.
+func (r *Recorder) Excluding(key string) bool {
+	r.mu.Lock()
+	defer r.mu.Unlock()
+	if _, ok := r.known[key]; !ok {
+		return false
+	}
+	r.Excluded++
+	return true
+}
+
 // Flush writes the partial evidence file.
 func (r *Recorder) Flush() {
 	r.mu.Lock()
